@@ -28,7 +28,7 @@ DATASETS = ["audio", "cloud", "file_sharing", "fixed_social_media", "gaming", "m
 
 def bounds(tier, seed):
     q = tier == "quick"
-    return {"m": "2..5 (+25 structured)" if q else "2..5 (+10,25,60 structured)", "n": [2, 3, 5, 16] if q else [2, 3, 4, 5, 8, 16, 64],
+    return {"m": "2..5 (+25 structured)" if q else "2..5 (+10,25,60 structured)", "n": [2, 3, 5, 16] if q else [2, 3, 5, 16, 64],
             "append": ["none", False, True], "datasets": 19}
 
 
@@ -157,9 +157,9 @@ def _series(quick, seed):
     for g in g3:
         ys = itertools.product(A.V, repeat=3) if not quick else A.spanning_values(3)
         out += [(g, y) for y in ys]
-    g4 = A.grids(6, 4) if quick else A.grids(8, 4)
+    g4 = A.grids(6, 4)
     for g in g4:
-        ys = itertools.product(A.V, repeat=4) if not quick else A.spanning_values(4)[::1]
+        ys = itertools.product((0, 1, 5), repeat=4) if not quick else A.spanning_values(4)[::1]
         out += [(g, y) for y in ys]
     for g in [(0, 1, 2, 3, 4), (0, 1, 3, 4, 8), (0, 2, 3, 7, 8), (0, 3, 4, 5, 9)]:
         ys = itertools.product(A.V, repeat=5) if not quick else A.spanning_values(5) + [(0, 0, 1, 1, 5), (2, 2, 2, 0, 0)]
@@ -170,7 +170,7 @@ def _series(quick, seed):
 def harnesses(tier, seed):
     quick = tier == "quick"
     series = _series(quick, seed)
-    ns = [2, 3, 5, 16] if quick else [2, 3, 4, 5, 8, 16, 64]
+    ns = [2, 3, 5, 16] if quick else [2, 3, 5, 16, 64]
 
     def psets(st, n):
         if st not in RC.WINDOW:
@@ -179,7 +179,10 @@ def harnesses(tier, seed):
             ps = RC.param_sets(st, n, alphas=[F(1, 2), F(1)], betas=[F(1, 2)], exps=[2], smooths=[1], explicit_a=False)
             ps += RC.param_sets(st, n, alphas=[F(3, 4)], betas=[F(0), F(1)], exps=[F(1, 2), 3], smooths=[3], explicit_a=False)[seed % 2::2][:1]
             return ps
-        return RC.param_sets(st, n, betas=[F(0), F(1, 2), F(1)], exps=[F(1, 2), 2, 4], smooths=[F(1, 2), 1, 3])
+        # thorough: ~8 M cases in total (sized for ~10 min on 16 cores)
+        ps = RC.param_sets(st, n, alphas=[F(1, 4), F(1, 2), F(1)], betas=[F(0), F(1)], exps=[F(1, 2), 3], smooths=[F(1, 2), 3], explicit_a=False)
+        ps += [q for q in RC.param_sets(st, n, alphas=[], betas=[F(1, 2)], exps=[2], smooths=[1]) if q.get("a") in (0, n)]
+        return ps
 
     def body(ctx):
         si = ctx.choose(len(series), "series")
